@@ -61,6 +61,13 @@ DESIGN = {
     "C19": ["MC_mux_ll_a.cfg", "MC_mux_ll_va.cfg"],
 }
 DESIGN_DEEP = ["MC_mux_fmp4.cfg", "MC_mux_ll.cfg", "MC_mux_ts.cfg"]
+# weakened variants of HlsMuxer.tla (vacuity guards): (cfg, invariant TLC must report)
+WEAK = {
+    "C01": [("MC_mux_weak_noGate.cfg", "C01")],
+    "C02": [("MC_mux_weak_gtSegMin.cfg", "C02")],
+    "C04": [("MC_mux_weak_keepOneMore.cfg", "C04")],
+    "C18": [("MC_mux_weak_keepOneMore.cfg", "C04")],
+}
 
 # model configurations used to generate write scripts with TLC (-simulate); ticks are milliseconds
 SIMS = {
@@ -84,6 +91,11 @@ def design(pid, tier):
         st += r.distinct
         tr += r.generated
         done.append({"cfg": c, "states": r.distinct, "transitions": r.generated})
+    for c, inv in WEAK.get(pid, []):
+        r = vlib.tlc("MCHlsMuxer", c, timeout=600, quiet=True)
+        if r.kind != "invariant":
+            raise vlib.Inconclusive("weakened muxer model %s was not refuted (%s)" % (c, r.kind))
+        done.append({"cfg": c, "refuted_by": r.violated})
     return st, tr, done
 
 
